@@ -1910,6 +1910,28 @@ def _thread_jumps(fn):
     return n_done
 
 
+def _expand_callable_choice(fn):
+    """`do = self._a if c else self._b` ... `do(x)`: the choice is written as a statement (`if c: do = self._a else: do = self._b`), so that
+    the tail-duplication below can put the call into each arm"""
+    n = 0
+    for blk in _blocks(fn):
+        for i, st in enumerate(blk):
+            if not (isinstance(st, ast.Assign) and len(st.targets) == 1 and isinstance(st.targets[0], ast.Name) and isinstance(st.value, ast.IfExp)):
+                continue
+            ref = lambda e: isinstance(e, ast.Name) or (isinstance(e, ast.Attribute) and isinstance(e.value, ast.Name) and e.value.id == "self")
+            if not (ref(st.value.body) and ref(st.value.orelse)):
+                continue
+            v = st.targets[0].id
+            if not any(isinstance(c, ast.Call) and isinstance(c.func, ast.Name) and c.func.id == v for s_ in blk[i + 1:] for c in ast.walk(s_)):
+                continue
+            mk = lambda val: ast.copy_location(ast.Assign(targets=[ast.Name(id=v, ctx=ast.Store())], value=val, lineno=st.lineno), st)
+            new = ast.copy_location(ast.If(test=st.value.test, body=[mk(st.value.body)], orelse=[mk(st.value.orelse)]), st)
+            ast.fix_missing_locations(new)
+            blk[i] = new
+            n += 1
+    return n
+
+
 def _duplicate_tail(fn):
     """an if-chain whose every falling arm ends by binding the same local to a literal, followed by a short tail that ends in
     return/raise and reads that local: the tail is copied to the end of each arm (where the value-naming pass then puts the literal in).
@@ -1918,7 +1940,7 @@ def _duplicate_tail(fn):
     for blk in _blocks(fn):
         for i in range(len(blk) - 1):
             a, rest = blk[i], [s_ for s_ in blk[i + 1:] if not isinstance(s_, ast.Pass)]
-            if not isinstance(a, ast.If) or not rest or len(rest) > 3 or not isinstance(rest[-1], (ast.Return, ast.Raise)):
+            if not isinstance(a, ast.If) or not rest or len(rest) > 3:
                 continue
             if any(isinstance(x, FUNC + (ast.Lambda, ast.NamedExpr)) for s_ in rest for x in ast.walk(s_)):
                 continue
@@ -1929,9 +1951,13 @@ def _duplicate_tail(fn):
             ok = True
             for arm in arms:
                 last = arm[-1]
-                if not (isinstance(last, ast.Assign) and len(last.targets) == 1 and isinstance(last.targets[0], ast.Name) and isinstance(last.value, ast.Constant)
-                        and isinstance(last.value.value, (str, int)) and not isinstance(last.value.value, bool)):
+                is_lit = isinstance(getattr(last, "value", None), ast.Constant) and isinstance(last.value.value, (str, int)) and not isinstance(last.value.value, bool)
+                is_fnref = isinstance(getattr(last, "value", None), ast.Name) or (isinstance(getattr(last, "value", None), ast.Attribute) and isinstance(last.value.value, ast.Name) and last.value.value.id == "self")
+                if not (isinstance(last, ast.Assign) and len(last.targets) == 1 and isinstance(last.targets[0], ast.Name) and (is_lit or is_fnref)):
                     ok = False
+                    break
+                if is_fnref and not any(isinstance(c, ast.Call) and isinstance(c.func, ast.Name) and c.func.id == last.targets[0].id for s_ in rest for c in ast.walk(s_)):
+                    ok = False          # a chosen function: only worth it when the tail CALLS it
                     break
                 if t is None:
                     t = last.targets[0].id
@@ -3517,6 +3543,7 @@ def normalize(modname, tree):
                 stats["comprehensions"] += _loops_to_comprehensions(n)          # loops whose body became one statement by the passes above
                 stats["rotated_loops"] = stats.get("rotated_loops", 0) + _rotate_loops(n)
                 progress += k + _splice_starred_literals(n)
+                _expand_callable_choice(n)
                 k2 = _duplicate_tail(n)
                 if k2:
                     stats["threaded"] += k2
